@@ -164,3 +164,30 @@ def jobs_default():
         return int(os.environ.get("VERIF_JOBS", "") or min(16, os.cpu_count() or 1))
     except ValueError:
         return 16
+
+
+def quiet_legacy_logger():
+    """Route plotink.ebb_serial's logger into a counting sink (no stderr noise)."""
+    import logging                                      # pylint: disable=import-outside-toplevel
+    from plotink import ebb_serial                      # pylint: disable=import-outside-toplevel
+
+    class Sink(logging.Handler):
+        def __init__(self):
+            super().__init__(level=logging.DEBUG)
+            self.count = 0
+
+        def emit(self, record):
+            try:
+                record.getMessage()
+            except Exception:                           # pylint: disable=broad-except
+                pass
+            self.count += 1
+
+    for handler in ebb_serial.logger.handlers:
+        if type(handler).__name__ == "Sink":
+            return handler
+    sink = Sink()
+    ebb_serial.logger.handlers = [sink]
+    ebb_serial.logger.setLevel(logging.DEBUG)
+    ebb_serial.logger.propagate = False
+    return sink
